@@ -24,7 +24,7 @@ to objects other than its own locals goes through an `Iface H W` — the PARAMET
 `Model/GraphX.lean` instantiates the interface with the hand model's functions.
 
 Python features covered: locals (numbered in order of first binding, parameters first; unbound = `stuck`), constants,
-`e.a`, `getattr(e, n)`, `len`, `==`, `is` / `is not` a constant, `isinstance`, `"fmt" % (a, b, …)` (the formatted
+`e.a`, `getattr(e, n)`, `len`, `==`, `is` / `is not` (a constant or another object), `isinstance`, `"fmt" % (a, b, …)` (the formatted
 string is kept symbolic: `app "%" [fmt, a, b, …]`), `[]`, `{}`, list locals with `x.append(e)`, dict locals with
 `x[k] = v`, `f(*x)`, `o.m(**d)`, `not`/`and`/`or` in conditions, `if`, `for x in e` (lists, dict keys, interface
 iterables), `continue`, `break`, `raise <Class>(…)` (the message is dropped), `assert`, `return`, `o.a = v`.
@@ -156,6 +156,8 @@ inductive Expr where
   | eq (a b : Expr)                             -- `a == b`
   | isC (e : Expr) (c : Const)                  -- `e is <None/True/False>`
   | isNotC (e : Expr) (c : Const)
+  | is (a b : Expr)                             -- `a is b` (identity of handles / None / True / False)
+  | isNot (a b : Expr)
   | isinstance (e : Expr) (cls : String)
   | mod (f : Expr) (args : Exprs)               -- `f % (a, b, …)`
   | emptyList
@@ -264,6 +266,16 @@ def Expr.eval (I : Iface H W) (w : W) (env : Env H) : Expr → R (Val H)
     | r => r
   | .isNotC e c => match e.eval I w env with
     | .ok v => .ok (.bool (!decide (v = c.val)))
+    | r => r
+  | .is a b => match a.eval I w env with
+    | .ok x => (match b.eval I w env with
+      | .ok y => .ok (.bool (decide (x = y)))
+      | r => r)
+    | r => r
+  | .isNot a b => match a.eval I w env with
+    | .ok x => (match b.eval I w env with
+      | .ok y => .ok (.bool (!decide (x = y)))
+      | r => r)
     | r => r
   | .isinstance e cls => match e.eval I w env with
     | .ok v => (match I.isinstance v cls with
